@@ -107,14 +107,41 @@ func runC05() {
 		want      interface{} // expected result when it compiles
 	}
 	var bigs []big
-	for _, n := range []int{21840, 21843, 21844, 21845, 21846, 22001} {
-		l := bigList(n, "1")
+	// every byte size of the jumped-over block from 65500 to 65545 (and a few far beyond): the block is
+	// a list of j one-byte pushes (true) and n three-byte pushes (1), so that all residues mod 3 occur
+	sizes := []int{}
+	for s := 65500; s <= 65545; s++ {
+		sizes = append(sizes, s)
+	}
+	sizes = append(sizes, 66000, 70000)
+	if *tier != "thorough" {
+		var some []int
+		for i, s := range sizes {
+			if i%2 == int(*seed)%2 || (s >= 65515 && s <= 65540) {
+				some = append(some, s)
+			}
+		}
+		sizes = some
+	}
+	for _, s := range sizes {
+		j := s % 3
+		n := (s - j) / 3
+		items := make([]string, 0, n+j)
+		for i := 0; i < j; i++ {
+			items = append(items, "true")
+		}
+		for i := 0; i < n; i++ {
+			items = append(items, "1")
+		}
+		l := "[" + strings.Join(items, ", ") + "]"
+		cnt := n + j
 		bigs = append(bigs,
-			big{fmt.Sprintf("conditional branch of %d pushes", n), "len(false ? " + l + " : [2])", 1},
-			big{fmt.Sprintf("conditional branch of %d pushes (taken)", n), "len(true ? " + l + " : [2])", n},
-			big{fmt.Sprintf("or right operand of %d pushes", n), "B2 or len(" + l + ") > 0", true},
-			big{fmt.Sprintf("loop body of %d pushes", n), "len(map(1..2, {" + l + "}))", 2},
-			big{fmt.Sprintf("all body of %d pushes", n), "all(1..2, {len(" + l + ") > 0})", true},
+			big{fmt.Sprintf("conditional branch with a %d-byte element block (skipped)", s), "len(false ? " + l + " : [2])", 1},
+			big{fmt.Sprintf("conditional branch with a %d-byte element block (taken)", s), "len(true ? " + l + " : [2])", cnt},
+			big{fmt.Sprintf("or right operand with a %d-byte element block", s), "B2 or len(" + l + ") > 0", true},
+			big{fmt.Sprintf("map loop body with a %d-byte element block", s), "len(map(1..2, {" + l + "}))", 2},
+			big{fmt.Sprintf("all loop body with a %d-byte element block", s), "all(1..2, {len(" + l + ") > 0})", true},
+			big{fmt.Sprintf("filter loop body with a %d-byte element block", s), "len(filter(1..3, {len(" + l + ") > 0}))", 3},
 		)
 	}
 	for _, n := range []int{65530, 65533, 65534, 65535, 65536, 70000} {
